@@ -169,12 +169,85 @@ pub fn run(outdir: &str, seed: u64, thorough: bool) -> serde_json::Value {
         if qi < 1 { st.sample(json!({"stream":"query","query":query,"candidates":count,"outcome":outcome})); }
     }
 
+    // table references: a CTE shadows the bare name it defines and nothing else; every other reference
+    // (bare or schema-qualified) goes to the table map under the exact / unique-suffix rule
+    let nt = if thorough { 6000 } else { 400 };
+    let all_tabs = [("sch", "t1"), ("sch", "t2"), ("oth", "t2"), ("oth", "t3")];
+    for ti in 0..nt {
+        let mut r = rng.fork();
+        let mut chosen: Vec<(&str, &str)> = all_tabs.iter().filter(|_| r.chance(2, 3)).cloned().collect();
+        if chosen.is_empty() { chosen.push(all_tabs[r.below(4) as usize]); }
+        let rels: Hierarchy<Arc<Relation>> = chosen.iter().map(|(sc, t)| {
+            let marker = format!("m_{}_{}", sc, t);
+            let schema: Schema = vec![("k".to_string(), DataType::integer_interval(0, 10)), (marker, DataType::integer_interval(0, 10))].into_iter().collect();
+            (vec![sc.to_string(), t.to_string()], Arc::new(Relation::table().name(format!("{}_{}", sc, t)).schema(schema).size(10).build()))
+        }).collect();
+        let tmap: BTreeMap<Vec<String>, u64> = chosen.iter().enumerate().map(|(i, (sc, t))| (vec![sc.to_string(), t.to_string()], i as u64)).collect();
+        let cte = *r.pick(&["t1", "t2", "t3", "c0"]);
+        let base = { let (sc, t) = r.pick(&chosen); format!("{}.{}", sc, t) };
+        let reference = *r.pick(&["t1", "t2", "t3", "c0", "sch.t1", "sch.t2", "oth.t2", "oth.t3", "sch.t3", "oth.t1"]);
+        let shape = r.below(4);
+        let with = format!("WITH {} AS (SELECT k AS k, k AS m_cte FROM {})", cte, base);
+        let query = match shape {
+            0 => format!("{} SELECT * FROM {}", with, reference),
+            1 => format!("{} SELECT * FROM (SELECT * FROM {}) AS s", with, reference),
+            2 => format!("{} SELECT * FROM {} AS x JOIN {} AS y ON x.k = y.k", with, cte, reference),
+            // the CTE is defined in an enclosing query
+            _ => format!("{} SELECT * FROM (SELECT * FROM {} AS y WHERE y.k > 1) AS s", with, reference),
+        };
+        // the map the reference is looked up in: the tables, plus the CTE under its bare name once a bare
+        // reference of this query binds it (QueryNames); the same exact / unique-agreeing-entry rule applies
+        let mut lmap = tmap.clone();
+        if reference == cte || shape == 2 { lmap.insert(vec![cte.to_string()], 99); }
+        let want: Option<String> = {
+            let p: Vec<String> = reference.split('.').map(|x| x.to_string()).collect();
+            spec_get(&lmap, &p).map(|(k, _)| if k.len() == 1 { "m_cte".to_string() } else { format!("m_{}_{}", k[0], k[1]) })
+        };
+        let res = catch_unwind(AssertUnwindSafe(|| {
+            let q = parse(&query).map_err(|e| e.to_string())?;
+            Relation::try_from(QueryWithRelations::new(&q, &rels)).map(|rel| rel.schema().iter().map(|f| f.name().to_string()).collect::<Vec<String>>()).map_err(|e| e.to_string())
+        }));
+        st.evaluations += 1;
+        st.distinct.insert(hash_str(&format!("{:?}{}", chosen, query)));
+        let tables: Vec<String> = chosen.iter().map(|(a, b)| format!("{}.{}", a, b)).collect();
+        let markers = |names: &Vec<String>| -> Vec<String> { names.iter().filter(|n| n.starts_with("m_")).cloned().collect() };
+        match (&res, &want) {
+            (Ok(Ok(names)), Some(m)) => {
+                st.bump(if reference == cte { "table_ref_cte" } else if reference.contains('.') { "table_ref_qualified" } else { "table_ref_suffix" });
+                // x.k, x.m_cte, y.k, y.<marker>: the star renames colliding names, so a renamed last column is m_cte
+                let ms = if shape == 2 { vec![match names.get(3) { Some(n) if n.starts_with("m_") => n.clone(), Some(_) => "m_cte".to_string(), None => "missing".to_string() }] } else { markers(names) };
+                if ms != vec![m.clone()] {
+                    st.violation(json!({"kind":"table-reference-bound-to-another-candidate","query":query,"tables":tables,"reference":reference,"cte":cte,"columns":names,"specified":m}));
+                }
+            }
+            (Ok(Ok(names)), None) => { st.bump("table_ref_unresolvable_ok");
+                st.violation(json!({"kind":"ambiguous-or-unknown-table-bound","query":query,"tables":tables,"reference":reference,"cte":cte,"columns":names})); }
+            (Ok(Err(e)), Some(m)) => { st.bump("table_ref_resolvable_err");
+                st.violation(json!({"kind":"table-reference-not-resolved","query":query,"tables":tables,"reference":reference,"cte":cte,"specified":m,"error":e.chars().take(120).collect::<String>()})); }
+            (Ok(Err(_)), None) => st.bump("table_ref_unresolvable_err"),
+            (Err(_), _) => { st.bump("table_ref_panic");
+                if want.is_some() { st.violation(json!({"kind":"table-reference-not-resolved","query":query,"tables":tables,"reference":reference,"cte":cte,"specified":want,"error":"panic"})); } }
+        }
+        if ti < 1 { st.sample(json!({"stream":"table-reference","query":query,"tables":tables,"specified":want})); }
+    }
+
     let header = "From QV Require Import Hierarchy.Model Corr.Lib Corr.C15.";
     let f1 = write_shards(outdir, "c15_get", header, "c15_case", "get_check", &cases, if thorough { 2000 } else { 400 });
     let f2 = write_shards(outdir, "c15_and_then", header, "list (path * path) * list (path * N) * list (path * N)", "and_then_check", &at_cases, 2000);
     std::fs::write(format!("{}/c15_get.json", outdir), serde_json::to_string(&cj).unwrap()).unwrap();
     std::fs::write(format!("{}/c15_and_then.json", outdir), serde_json::to_string(&atj).unwrap()).unwrap();
-    let mut out = st.to_json("lookups: random path maps over a 5-letter alphabet (with the empty component) with heavy suffix sharing x lookup paths derived from the keys (non-trivial: >= 2 entries; distinct by (map, path)); and_then pairs; queries: unqualified column over 2-3 joined tables with overlapping columns, ON/USING/NATURAL/CTE-shadowing (distinct by text)");
+    let mut out = st.to_json("lookups: random path maps over a 5-letter alphabet (with the empty component) with heavy suffix sharing x lookup paths derived from the keys (non-trivial: >= 2 entries; distinct by (map, path)); and_then pairs; queries: unqualified column over 2-3 joined tables with overlapping columns, ON/USING/NATURAL/CTE-shadowing (distinct by text); table references: bare / schema-qualified names over 1-4 tables in two schemas with a CTE named like a table or not, four query shapes, binding read off a marker column");
     out["shards"] = json!({"c15_get": f1, "c15_and_then": f2});
     out
+}
+
+/// developer aid: qvh TABREF "<sql>" "sch.t1,oth.t3": the schema (or error) of a query over marker tables
+pub fn tabref(sql: &str, tables: &str) {
+    let rels: Hierarchy<Arc<Relation>> = tables.split(',').map(|p| {
+        let (sc, t) = p.split_once('.').unwrap();
+        let schema: Schema = vec![("k".to_string(), DataType::integer_interval(0, 10)), (format!("m_{}_{}", sc, t), DataType::integer_interval(0, 10))].into_iter().collect();
+        (vec![sc.to_string(), t.to_string()], Arc::new(Relation::table().name(format!("{}_{}", sc, t)).schema(schema).size(10).build()))
+    }).collect();
+    let q = parse(sql).unwrap();
+    match Relation::try_from(QueryWithRelations::new(&q, &rels)) { Ok(r) => println!("{}\n{}", r.schema(), r), Err(e) => println!("error: {}", e) }
 }
